@@ -236,6 +236,55 @@ theorem slotRange_spec (i t : Int) (q : TimeRange) (h : 0 ≤ t) (hi : 0 < i)
       have h2 : (b + 1) * i ≤ a * i := Int.mul_le_mul_of_nonneg_right h1 (by omega)
       omega
 
+/-- family starts are multiples of the calculator's family unit, so an interval dividing one hour
+(day type) resp. one day (month / year type) divides every family start -/
+theorem interval_dvd_familyTime (c : Calc) {t i : Int} (h : 0 ≤ t)
+    (hg : match c with | .day => i ∣ 3600000 | _ => i ∣ 86400000) : i ∣ calcFamilyTime c t := by
+  cases c
+  · rw [day_familyTime h]; exact Int.dvd_trans hg (Int.dvd_mul_left _ _)
+  · rw [month_familyTime h]; exact Int.dvd_trans hg (Int.dvd_mul_left _ _)
+  · rw [year_familyTime h]; exact Int.dvd_trans hg (Int.dvd_mul_left _ _)
+
+/-- the slot a point is written to lies inside the slot range read for any query range that
+contains the point's (epoch-aligned) storage slot start — when the storage interval divides the
+family start, i.e. the family's slot grid and `Truncate`'s grid coincide -/
+theorem covered_slot (i t : Int) (q : TimeRange) (h : 0 ≤ t) (hi : 0 < i)
+    (hdiv : i ∣ calcFamilyTime (intervalType i) t)
+    (hT1 : q.start ≤ t / i * i) (hT2 : t / i * i ≤ q.stop) :
+    ∃ s a b, calcSlot (intervalType i) t (calcFamilyTime (intervalType i) t) i = some s ∧
+      calcSlotRange i (calcFamilyTime (intervalType i) t) q = some (a % 65536, b % 65536) ∧
+      a ≤ s ∧ s ≤ b := by
+  have hc := family_contains (intervalType i) h
+  obtain ⟨k, hk⟩ := hdiv
+  have hTt : t / i * i ≤ t := Int.ediv_mul_le t (by omega)
+  have hkT : ∀ m : Int, m * i ≤ t → m * i ≤ t / i * i := fun m hm =>
+    Int.mul_le_mul_of_nonneg_right (Int.le_ediv_of_mul_le hi hm) (by omega)
+  have hfT : calcFamilyTime (intervalType i) t ≤ t / i * i := by
+    have := hkT k (by rw [Int.mul_comm, ← hk]; omega)
+    rw [Int.mul_comm, ← hk] at this; exact this
+  have hne : (q.intersect ⟨calcFamilyTime (intervalType i) t,
+        calcFamilyEndTime (intervalType i) (calcFamilyTime (intervalType i) t)⟩).start ≤ t / i * i ∧
+      t / i * i ≤ (q.intersect ⟨calcFamilyTime (intervalType i) t,
+        calcFamilyEndTime (intervalType i) (calcFamilyTime (intervalType i) t)⟩).stop := by
+    simp only [TimeRange.intersect]
+    constructor
+    · split <;> omega
+    · split <;> omega
+  obtain ⟨a, b, e, _, _, la, _, _, ub⟩ := slotRange_spec i t q h hi (by omega)
+  obtain ⟨s, es, s0, ls, us⟩ := slot_bound (intervalType i) (t := t) (i := i) h hi
+  refine ⟨s, a, b, es, e, ?_, ?_⟩
+  · -- f + a·i ≤ rs.start ≤ T ≤ t < f + (s+1)·i
+    have : a * i < (s + 1) * i := by omega
+    have := Int.lt_of_mul_lt_mul_right this (by omega)
+    omega
+  · -- f + s·i ≤ T ≤ rs.stop < f + (b+1)·i
+    have h1 : (s + k) * i ≤ t := by rw [Int.add_mul, Int.mul_comm k i, ← hk]; omega
+    have h2 := hkT _ h1
+    rw [Int.add_mul, Int.mul_comm k i, ← hk] at h2
+    have : s * i < (b + 1) * i := by omega
+    have := Int.lt_of_mul_lt_mul_right this (by omega)
+    omega
+
 /-! ### broker row grouping -/
 
 theorem mem_insertAsc {x a : Int} {l : List Int} : x ∈ insertAsc a l ↔ x = a ∨ x ∈ l := by
